@@ -298,11 +298,9 @@ func runTraceBatch(ctx context.Context, w *vgen.Writer, t *traceRig, b spanBatch
 	desc["items"] = names
 
 	t.wire.got, t.wire.err = nil, nil
-	t.httpC.reset()
-	t.grpcC.reset()
 	errW := t.wireExp.ExportSpans(ctx, snaps)
-	errH := t.httpExp.ExportSpans(ctx, snaps)
-	errG := t.grpcExp.ExportSpans(ctx, snaps)
+	errH := exportTo(&t.httpC.sink, func() error { return t.httpExp.ExportSpans(ctx, snaps) })
+	errG := exportTo(&t.grpcC.sink, func() error { return t.grpcExp.ExportSpans(ctx, snaps) })
 	if errW != nil || errH != nil || errG != nil {
 		desc["export_errors"] = fmt.Sprint(errW, " | ", errH, " | ", errG)
 	}
